@@ -358,3 +358,24 @@ def replay_main(path, oracles):
     if ok:
         print(f"VIOLATION property={rec['property']} replay={path}"); print('  reproduced:', detail); return 1
     print('not reproduced on the current tree:', detail); return 0
+
+# ---------------------------------------------------------------- differential self-test helper
+def selftest_calls(st, harness, calls, max_steps=100_000_000, throw_code=(-1000000) & 0xffffffff):
+    """calls: list of (fn, spec, ret).  symir (concrete) vs native must be bit-identical.  A mismatch inside the shared native batch process is re-run in a fresh
+    process: if that agrees with symir the library's result depends on earlier calls in the process (reported as a note; the jobs decide), not an engine problem."""
+    mod, so = load(harness)
+    nat = native_batch(so, calls)
+    for (fn, spec, ret), nres in zip(calls, nat):
+        m = Machine(mod, max_steps=max_steps)
+        try: r, outs, _ = sym_call(m, fn, spec, ret)
+        except Throw: r, outs = throw_code, None
+        st.selftests += 1
+        def agree(nr):
+            return nr['status'] == 'ok' and same_bits(r, nr['ret']) and (outs is None or all(same_bits(a, b) for o1, o2 in zip(outs, nr['outs']) for a, b in zip(o1, o2)))
+        if agree(nres): st.ob(True, 'concrete'); continue
+        fresh = native_call(so, fn, spec, ret, timeout=60)
+        if agree(fresh):
+            st.notes.append(f'{fn}: native result in a shared process differs from a fresh process (history-dependent library state); symir agrees with the fresh process')
+            st.ob(True, 'concrete')
+        elif nres['status'] != 'ok' and r == throw_code: st.ob(True, 'concrete')
+        else: st.viol('selftest', f'{fn} {str(spec[:3])[:120]}: symir and native differ ({r} vs {nres.get("ret")})')
